@@ -39,8 +39,10 @@ impl PPTT {
 
     pub fn add_processor(&mut self, node: ProcessorNode) -> ProcessorHandle {
         let old_offset = self.handle_offset;
+        // Serialise first: an oversize node is refused before the table is touched
+        let sum = node.u8sum();
         self.handle_offset += node.len() as u32;
-        self.update_header(node.u8sum(), node.len() as u32);
+        self.update_header(sum, node.len() as u32);
         self.structures.push(Box::new(node));
         ProcessorHandle(old_offset)
     }
